@@ -534,6 +534,10 @@ pbt::Config config() {
     c.assumptions = {"body poses and velocities reported by the matter subsystem are correct (C03/C05)",
                      "CompliantContactSubsystem combines material properties as documented for HuntCrossleyForce (E, c, friction coefficients); where the combination is not documented the check uses the interval spanned by the two materials (exact when they are equal)",
                      "Hertz elliptical: library documents approximations (ellipse ratio to 5 digits, K(m),E(m)); band 1e-4 (observed max < 1e-5) against Hertz theory evaluated with AGM elliptic integrals"};
+    c.requiredLabels = {"element:HuntCrossleyForce", "element:ElasticFoundationForce", "element:CCS-HertzCircular", "element:CCS-HertzElliptical", "element:CCS-ElasticFoundation", "element:CCS-BrickHalfSpace",
+                        "element:SmoothSphereHalfSpaceForce", "element:ExponentialSpringForce", "HC/two-probes-one-clamped", "HC/rate:yank", "HC/slip:transition", "EFF/active", "EFF/some-springs-yanked", "CcsEF/active",
+                        "CcsEF/equal-dissipation(exact)", "HertzCirc/sliding-friction-checked", "HertzEll/curvature-ratio>=30", "CcsBrick/vertices-penetrating:4", "Smooth/rate:beyond-rebound-threshold",
+                        "Exp/fz-clamped-at-max", "Exp/fz-clamped-at-0", "Exp/sliding-blend", "Exp/spring-model-limited"};
     c.directed.push_back({"hc-two-spheres-one-rebounding", "hc-return-on-rebound", [](pbt::Ctx& ctx) {
         // two spheres on a ground half-space in one contact set; one rests (depth 0.01), the other leaves faster than
         // 2/(3c). Whatever the processing order, the resting sphere must receive k x^1.5. Both role assignments and both lateral orders tried.
